@@ -80,7 +80,53 @@ func (x *fnCtx) lookupName(env *specEnv, name string) (*Val, bool) {
 	if v, ok := env.st.ghost[name]; ok {
 		return v, true
 	}
+	// a `trace ... bind name` that did not fire on this path: an unconstrained value
+	if x.con != nil {
+		for _, td := range x.con.Traces {
+			if td.As == name {
+				if t := x.bindType(td); t != nil {
+					v := freshVal(t, "unbound."+name, false)
+					env.st.ghost[name] = v
+					return v, true
+				}
+			}
+		}
+	}
 	return nil, false
+}
+
+// bindType finds the result type of the calls matched by a trace declaration.
+func (x *fnCtx) bindType(td *TraceDecl) types.Type {
+	var found types.Type
+	var scan func(fn *ssa.Function)
+	scan = func(fn *ssa.Function) {
+		for _, b := range fn.Blocks {
+			for _, in := range b.Instrs {
+				var c *ssa.CallCommon
+				switch v := in.(type) {
+				case *ssa.Call:
+					c = &v.Call
+				case *ssa.Defer:
+					c = &v.Call
+				}
+				if c == nil || found != nil {
+					continue
+				}
+				if matchCallee(td.Pattern, calleeName(c)) {
+					res := c.Signature().Results()
+					switch res.Len() {
+					case 0:
+					case 1:
+						found = res.At(0).Type()
+					default:
+						found = res
+					}
+				}
+			}
+		}
+	}
+	scan(x.fn)
+	return found
 }
 
 func (x *fnCtx) findNamedType(name string) types.Type {
@@ -366,7 +412,7 @@ func (x *fnCtx) specMapGet(env *specEnv, m, k *Val) *Val {
 	out := &Val{T: mt.Elem()}
 	for _, l := range layout(mt.Elem()) {
 		arr := hget(env.heap, mapHeapName(mt)+"#val"+l.Suffix, ArrSort(SInt, ArrSort(ks, l.Sort)))
-		out.L = append(out.L, Select(Select(arr, m.L[0]), k.L[0]))
+		out.L = append(out.L, Select(Select(arr, m.L[0]), mapKey(k)))
 	}
 	return out
 }
@@ -551,7 +597,31 @@ func (x *fnCtx) evalSpecCall(env *specEnv, e *SExpr) *Val {
 		return scalar(tBool, Exists([]*Term{bv}, body))
 	case "has":
 		m, k := ev(0), ev(1)
-		return scalar(tBool, And(Ne(m.L[0], IntLit(0)), Select(x.specMapDom(env, m), k.L[0])))
+		return scalar(tBool, And(Ne(m.L[0], IntLit(0)), Select(x.specMapDom(env, m), mapKey(k))))
+	case "mapAt":
+		// mapAt(m, r, i): component i (0 = key set, 1.. = value leaves) of the map object with
+		// reference r, of the same map type as m
+		m, r := ev(0), ev(1)
+		mt := m.T.Underlying().(*types.Map)
+		ks, _ := mapSorts(mt)
+		i, _ := strconv.Atoi(args[2].Op)
+		if i == 0 {
+			return scalar(tInt, Select(hget(env.heap, mapHeapName(mt)+"#dom", ArrSort(SInt, ArrSort(ks, SBool))), r.L[0]))
+		}
+		l := layout(mt.Elem())[i-1]
+		return scalar(tInt, Select(hget(env.heap, mapHeapName(mt)+"#val"+l.Suffix, ArrSort(SInt, ArrSort(ks, l.Sort))), r.L[0]))
+	case "boundMethodOf":
+		// boundMethodOf(f, "Unlock", recv): f is the method value recv.<Method> (bound closure)
+		f := ev(0)
+		recv := ev(2)
+		if f.Fn == nil || len(f.Fn.Bindings) != 1 {
+			return scalar(tBool, False)
+		}
+		fname := f.Fn.Fn.Name()
+		if !strings.HasPrefix(fname, args[1].Op+"$bound") {
+			return scalar(tBool, False)
+		}
+		return scalar(tBool, Eq(f.Fn.Bindings[0].L[0], recv.L[0]))
 	case "fresh":
 		a := ev(0)
 		alloc0 := hget(env.old, "$alloc", ArrSort(SInt, SBool))
@@ -639,6 +709,8 @@ func (x *fnCtx) evalSpecCall(env *specEnv, e *SExpr) *Val {
 			}
 		}
 		x.fail("spec: visited() without a map range loop")
+	case "itercount":
+		return scalar(tInt, hget(env.heap, "$itercnt."+x.short, SInt))
 	case "int":
 		return scalar(tInt, ev(0).L[0])
 	case "nonneg":
